@@ -23,7 +23,84 @@ pub fn scenarios() -> Vec<Scenario> {
         quick_runs: 30_000,
         weight: 1,
         rule: "case = (valid packet, suffix, schedule), evaluated at every cut position (all for <= 2,048 bytes, field boundaries +-2 and 256 spread positions beyond); non-trivial when the encoding has >= 3 bytes; distinct by case hash",
+    },
+    Scenario {
+        property: "C07",
+        name: "c07-spelled",
+        gen: gen_spelled,
+        run: run_spelled,
+        quick_runs: 20_000,
+        weight: 1,
+        rule: "case = valid packet in a legal non-canonical spelling (reason code / property length spelled out, shuffled properties) that the decoders accept; every strict prefix must be incomplete; non-trivial when the spelling differs from the encoder's own; distinct by case hash",
     }]
+}
+
+/// Valid encodings the library's own encoder never emits: MQTT 5 long forms and other property
+/// orders. "Every valid packet encoding" in the property is not limited to the encoder's output.
+pub fn gen_spelled(rng: &mut Rng, tier: Tier, idx: u64) -> Case {
+    let mut c = gen(rng, tier, idx);
+    c.scenario = "c07-spelled".into();
+    c.style = Style {
+        spell: rng.range(1, 2) as u8,
+        shuffle: if rng.chance(1, 2) { rng.next_u64() | 1 } else { 0 },
+        ..Style::default()
+    };
+    c.suffix = Bs(vec![]);
+    c
+}
+
+pub fn run_spelled(c: &Case, trace: bool) -> RunOut {
+    dispatch!(c.fam, run_spelled_g(c, trace))
+}
+
+fn run_spelled_g<C: Codec>(c: &Case, trace: bool) -> RunOut {
+    let mut out = RunOut::default();
+    let a = &c.packets[0];
+    let ty = a.type_name();
+    let f = if c.fam.is_v5() { "v5" } else { "v3" };
+    let sig = |clause: &str| format!("C07:{f}:{ty}:spelled:{clause}");
+    let enc = refcodec::ref_encode(a, c.fam, &c.style).bytes;
+    let canon = refcodec::ref_encode(a, c.fam, &Style::default()).bytes;
+    out.nontrivial = enc != canon;
+    out.evals = 1;
+    // it is a valid encoding as far as this property is concerned when every front-end decodes the
+    // whole of it to one and the same packet (whether it *should* be accepted is C04's business)
+    let whole = Rc::new(enc.clone());
+    let b0 = fe_block::<C>(&whole);
+    let p0 = run_p::<C>(&whole, &[], 0, &[], &[], false, trace, &mut out);
+    let Some(pkt) = b0.pkt().cloned() else { return out };
+    if p0.fe.pkt() != Some(&pkt) {
+        return out;
+    }
+    out.probe("spelled-form-accepted");
+    let len = enc.len();
+    let cuts: Vec<usize> = if len <= 2048 { (0..len).collect() } else { (0..64).chain(len - 64..len).collect() };
+    for k in cuts {
+        let pre = Rc::new(enc[..k].to_vec());
+        let b = fe_block::<C>(&pre);
+        out.evals += 1;
+        if !matches!(b, Fe::Incomplete) {
+            out.violate(
+                sig(&format!("B:prefix={}", fe_class::<C>(&b))),
+                format!("blocking decoder on the first {k} of {len} bytes of a valid (spelled-out) encoding returned {} instead of Ok(None)\n  packet: {a:?}\n  encoding: {:?}", fe_long::<C>(&b), Bs(enc.clone())),
+            );
+        }
+        let ar = run_a::<C>(&pre, &c.read_script, c.read_tail, &[], trace, &mut out);
+        let pr = run_p::<C>(&pre, &c.read_script, c.read_tail, &[], &[], false, trace, &mut out);
+        for (name, fe) in [("A", &ar.fe), ("P", &pr.fe)] {
+            let ok = matches!(fe, Fe::Err { e, .. } if C::norm(e).eof);
+            if !ok {
+                out.violate(
+                    sig(&format!("{name}:prefix={}", fe_class::<C>(fe))),
+                    format!("front-end {name}: stream closed after {k} of {len} bytes of a valid (spelled-out) encoding, result {} is not an error recognised by is_eof()\n  packet: {a:?}\n  encoding: {:?}", fe_long::<C>(fe), Bs(enc.clone())),
+                );
+            }
+        }
+        if out.violations.len() >= 3 {
+            break;
+        }
+    }
+    out
 }
 
 pub fn gen(rng: &mut Rng, tier: Tier, idx: u64) -> Case {
